@@ -7,7 +7,10 @@
     all output streams must be equal bit-for-bit.
 (2) isolation invariant at a hook: while only other bandits are constructed / trained / queried, the canonical
     state digest (SHA-256 of the pickle) of an idle bandit and of the policy tuples it was built from must not
-    change; it is checked after every single call on the others, so the witness names the call that leaked."""
+    change; it is checked after every single call on the others, so the witness names the call that leaked.
+
+As built: Scenario extras: warm starts with an exact tie between trained arms (string labels), trees created by add_arm and trained on tie-rich data, LinTS on huge nearly collinear contexts, bystander bandits that add / remove arms although a distribution is configured.
+"""
 from mon import env
 import copy
 import hashlib
